@@ -105,6 +105,17 @@ def iparse_number_array(arr):
     return iparse_number_array_aux(arr)
 
 
+def whole(number):
+    """
+    A whole number that arrives as a float (2040/2, every result of a division)
+    is handed to python's int-only interfaces - datetime(), round(), indexing,
+    str.rjust() - as the int it is; anything else is returned unchanged.
+    """
+    if isinstance(number, float) and number == int(number):
+        return int(number)
+    return number
+
+
 def wildcards_only(pattern):
     """
     fnmatch also reads [...] as a character class; in a sheet only * and ? are
